@@ -442,8 +442,8 @@ def run(ctx, chk):
         else:
             chk.violation("C17.R3", "raw_addr", "not-below-1MB", f"raw_addr can yield {v!r}", f"{file}:{p['line']}")
     # ---------------- R4
-    drv = P.by_name.get(("bin", "driver::driver::CMDDriver::run"))
-    ui = P.by_name.get(("bin", "driver::user_interface::user_interface"))
+    drv = P.find("bin", "driver::driver::CMDDriver::run")
+    ui = P.find("bin", "driver::user_interface::user_interface")
     if drv is None or ui is None:
         chk.undecided_("C17.R4", "driver", "driver or prompt not found")
     else:
